@@ -428,20 +428,14 @@ def _check(prop, mod, tier, seed, replay, rundir, t0):
                              'correspondence run alone' % (t, terr.strip().splitlines()[-1][:160] if terr.strip() else ''))
         lost = []
         g = gate(closure(['Props/%s.v' % prop, 'Run/%s.v' % prop] + list(getattr(mod, 'TIES', [])), lost))
-        # translator failed closed on a Gen file this property depends on: the obligations are
-        # broken (pr above was computed without the file).  For the SEARCH for a failing input
-        # only, the last successfully regenerated text is put back, so that MODEL and SPEC still
-        # run; it never contributes to a passing verdict (stale_gen => broken below).
-        stale_gen = []
-        for rel in lost:
-            m = re.fullmatch(r'Gen/(\w+)\.v', rel)
-            last = os.path.join(COQ, 'GenLast', os.path.basename(rel))
-            if m and str(gen_status.get(m.group(1), '')).startswith('FAILED') and os.path.exists(last):
-                shutil.copy2(last, os.path.join(COQ, rel))
-                stale_gen.append(rel)
-        if stale_gen:
-            notes.append('search runs on the last successfully regenerated %s (stale: not used for the verdict)' % ', '.join(stale_gen))
-            make(targets)
+        # Gen files of this property that could not be regenerated and were replaced by the committed
+        # translation of the pinned tree (extract.py FALLBACK): the theorems then hold of a MODEL that
+        # is tied to the code by the correspondence run alone, which is therefore boosted
+        clo = closure(['Props/%s.v' % prop, 'Run/%s.v' % prop] + list(getattr(mod, 'TIES', [])))
+        fallback = sorted(k for k, v in gen_status.items() if str(v).startswith('FALLBACK') and 'Gen/%s.v' % k in clo)
+        for k in fallback:
+            notes.append('translator: Gen/%s could not be regenerated (%s); the committed translation of the pinned tree '
+                         'is used and the MODEL<->code link for it is the correspondence run alone' % (k, str(gen_status[k])[10:200]))
         drv_ok, drv_msg = build_driver()
         if drv_ok:
             shutil.copy2(os.path.join(COQ, 'driver', 'driver'), os.path.join(rundir, 'driver'))
@@ -490,7 +484,7 @@ def _check(prop, mod, tier, seed, replay, rundir, t0):
 
     # 4: correspondence
     rng = random.Random('%s-%d' % (prop, seed))
-    boost = bool(broken) or any(not v for v in ties.values()) or any('translator' in n for n in notes)
+    boost = bool(broken) or any(not v for v in ties.values()) or any('translator' in n for n in notes) or bool(fallback)
     cases = list(mod.corpus()) + list(mod.generate(rng, tier, False))
     results = {'evaluations': 0}
     viol, mism, known_hits, stats = [], [], {}, {}
@@ -539,10 +533,7 @@ def _check(prop, mod, tier, seed, replay, rundir, t0):
         idx = list(range(len(lines)))
         random.Random(seed).shuffle(idx)
         small = [i for i in idx if len(lines[i]) + len(impl[i]) + len(drv[i]) < 4000][:nco]
-        if stale_gen:
-            rc, err, small = 0, 'skipped: stale Gen in use for the search', []
-        else:
-          with Lock():
+        with Lock():
             st2 = regen()
             if any(v == 'written' for v in st2.values()):
                 make(list(getattr(mod, 'MAKE_TARGETS', [])) + ['Run/All.vo'])
@@ -628,6 +619,8 @@ def _check(prop, mod, tier, seed, replay, rundir, t0):
     json.dump(ev, open(os.path.join(OUT, 'evidence', prop + '.json'), 'w'), indent=1)
     for l in out_lines:
         print(l)
+    for k in fallback:
+        print('NOTE: property=%s Gen/%s could not be regenerated from the source; committed translation used, tied by the correspondence run (%d cases)' % (prop, k, results['evaluations']))
     print('%s tier=%s seed=%d: %d/%d obligations, %d cases (%d constrained), %d mismatches, %d violations, %.1fs'
           % (prop, tier, seed, pr['discharged'], pr['obligations'], results['evaluations'], len(distinct), len(mism), len(viol), time.time() - t0))
     return status
@@ -637,6 +630,12 @@ def setup():
     with Lock():
         st = regen()
         log('extract:', st)
+        # the committed fallback translation must be the translation of the pinned tree
+        for b in sorted(glob.glob(os.path.join(COQ, 'GenBase', '*.v'))):
+            g = os.path.join(COQ, 'Gen', os.path.basename(b))
+            if not os.path.exists(g) or open(g).read() != open(b).read():
+                log('setup: NOTE Gen/%s differs from the committed GenBase (source tree differs from the pinned one, '
+                    'or tools/extract.py --rebase is due)' % os.path.basename(b))
         write_project()
         rc, out = make(['all'], timeout=6000)
         log(out[-2000:])
